@@ -73,4 +73,10 @@ def inBlock (addr net len : Nat) : Bool :=
   let base := net / size * size
   base ≤ addr && addr < base + size
 
+/-- the same block arithmetic for 128-bit addresses -/
+def inBlock6 (addr net len : Nat) : Bool :=
+  let size := 2 ^ (128 - len)
+  let base := net / size * size
+  base ≤ addr && addr < base + size
+
 end Casbin.KM
